@@ -499,6 +499,10 @@ fn handle_a2ml(
                 while bytepos < datalen && filebytes[bytepos] != b'/' {
                     bytepos += 1;
                 }
+                if bytepos == datalen {
+                    // the input ends inside the A2ML block
+                    break;
+                }
                 if filebytes[bytepos..].starts_with(b"//") {
                     // line comment
                     // skip the comment marker
